@@ -19,7 +19,7 @@ structure Comment where
   srcStart : Nat
   srcEnd : Nat
   text : Text
-deriving Repr, DecidableEq
+deriving Repr, DecidableEq, Inhabited
 
 /-- `blocks::Block` -/
 structure Block where
